@@ -64,6 +64,7 @@ def clientOp (t : String) : Option COp :=
   | ["h2", "0"] => some (.assumeHttp2 false)
   | ["h2", "1"] => some (.assumeHttp2 true)
   | ["roots"] => some .withEnabledRoots
+  | ["kl"] => some .useKeyLog
   -- the methods below exist only in the side builds (`tlsf` cases)
   | ["nroots"] => some .withNativeRoots
   | ["wroots"] => some .withWebpkiRoots
@@ -82,10 +83,24 @@ def serverOp (t : String) : Option SOp :=
   | ["opt", "1"] => some (.clientAuthOptional true)
   | ["ico", "0"] => some (.ignoreClientOrder false)
   | ["ico", "1"] => some (.ignoreClientOrder true)
+  | ["kl"] => some .useKeyLog
   | _ => none
 
+/-- `Server`-level builder calls written among the `ServerTlsConfig` calls of a case: `pre` = an
+earlier `Server::tls_config` call with a configuration WITHOUT client authentication, `lay0` /
+`lay` = `Server::layer` before / after the case's `tls_config` call. -/
+def isServerLevel (t : String) : Bool := t = "pre" || t = "lay0" || t = "lay"
+
 def serverOps (t : String) : Option (List SOp) :=
-  if t = "-" then some [] else mapM? serverOp (t.splitOn "+")
+  if t = "-" then some [] else mapM? serverOp ((t.splitOn "+").filter (fun x => !isServerLevel x))
+
+/-- The `Server` builder chain of a case (`Tls.ServerStep`), around its own `tls_config(cfg)`. -/
+def serverSteps (t : String) (idOp : SOp) (cfg : List SOp) : List (ServerStep Cert (List Cert)) :=
+  let toks := t.splitOn "+"
+  (if toks.contains "pre" then [ServerStep.tlsConfig [idOp, .clientAuthOptional true]] else []) ++
+  (if toks.contains "lay0" then [ServerStep.layer] else []) ++
+  [ServerStep.tlsConfig cfg] ++
+  (if toks.contains "lay" then [ServerStep.layer] else [])
 
 inductive ClientSetup
   | notls                       -- Endpoint::from_shared, no tls_config
@@ -138,9 +153,12 @@ structure ServerPart where
   serverCert : Cert
   alpn : String
   sops : List SOp
+  /-- the `<srvops>` token as written (it also carries the `Server`-level calls) -/
+  sopsTok : String := "-"
   inner : InnerInfo
-  /-- `-x2`: every client connects twice (handlers run twice on success) -/
-  twice : Bool
+  /-- handler runs per successful client: `-x2` (every client connects twice) and `-c2` (two
+  calls per channel) each double it -/
+  mult : Nat
 
 structure Case where
   c : ClientPart
@@ -173,6 +191,8 @@ inductive Body
   | ops (src : Option Nat) (l : List COp)
   /-- bare `@k` -/
   | same
+  /-- `@k new`: `Endpoint::new(ep_k.clone())` -/
+  | renew
 
 structure RawClient where
   schemeTok : String
@@ -204,6 +224,7 @@ def parseRaw (ts : List String) : Option RawClient :=
       match refTok "@" t with
       | some k =>
         if rest'.isEmpty then some { schemeTok := sch, hostTok := uh, epRef := some k, body := .same }
+        else if rest' = ["new"] then some { schemeTok := sch, hostTok := uh, epRef := some k, body := .renew }
         else (parseCfgBody rest').map fun b => { schemeTok := sch, hostTok := uh, epRef := some k, body := b }
       | none => (parseCfgBody rest).map fun b => { schemeTok := sch, hostTok := uh, body := b }
     | [] => some { schemeTok := sch, hostTok := uh, body := .ops none [] }
@@ -265,6 +286,14 @@ def resolveStep (st : Res) (r : RawClient) : Option Res :=
           if tk ≠ (r.schemeTok, r.hostTok) then none else
           match body with
           | .same => some (st.push r su [.cloneEndpoint ek, .connect st.nep] 0 1 none (some st.nep) osk)
+          | .renew =>
+            -- the ORACLE's reading of `Endpoint::new(ep_k.clone())` (generated `connect(dst)` with
+            -- `dst` an Endpoint): what the caller configured on that endpoint stands; only an https
+            -- endpoint that was given no TLS configuration gets the generated-client default
+            let os' : Option OSetup := match osk with
+              | some .notls => if scheme = .https then some .auto else some .notls
+              | o => o
+            some (st.push r su [.endpointNewFrom ek, .connect st.nep] 0 1 none (some st.nep) os')
           | .ops src l =>
             (cfgStmt st src l).map fun s =>
               st.push r su [s, .tlsConfig ek st.ncfg, .connect st.nep] 1 1
@@ -272,6 +301,7 @@ def resolveStep (st : Res) (r : RawClient) : Option Res :=
           | _ => none
         | _, _, _ => none
       | none, .same => none
+      | none, .renew => none
     | _, _ => none
 
 def resolve (raws : List RawClient) : Option Res :=
@@ -289,14 +319,17 @@ def oracleSetup (st : Res) (i : Nat) : Option ClientSetup :=
 /-- transport token: `tcp|duplex` then any of `-lazy` (connect_with_connector_lazy + one retry),
 `-x2` (two connections per client), `-par` (clients run concurrently) — only `-x2` changes the
 expected outcome (handler count) -/
-def parseTransport (tr : String) : Option (InnerInfo × Bool) :=
+def parseTransport (tr : String) : Option (InnerInfo × Nat) :=
   match tr.splitOn "-" with
   | base :: flags =>
     let inner? : Option InnerInfo := if base = "tcp" then some .tcp else if base = "duplex" then some .other else none
     -- `-native`: Endpoint::connect()/connect_lazy() with tonic's HttpConnector (through a
     -- recording proxy); `-cto`: connect_timeout set. Same decision logic.
-    if flags.all (fun f => f = "lazy" || f = "x2" || f = "par" || f = "native" || f = "cto") then
-      inner?.map (fun i => (i, flags.contains "x2"))
+    -- `-bal`: a balanced channel over the endpoint; `-kn`: all other Endpoint knobs set after
+    -- `tls_config`; `-c2`: two calls on one channel. None takes part in the decision.
+    if flags.all (fun f => f = "lazy" || f = "x2" || f = "par" || f = "native" || f = "cto" ||
+        f = "c2" || f = "bal" || f = "kn") && (!flags.contains "bal" || flags.contains "native") then
+      inner?.map (fun i => (i, (if flags.contains "x2" then 2 else 1) * (if flags.contains "c2" then 2 else 1)))
     else none
   | [] => none
 
@@ -310,8 +343,8 @@ def parseCasesWith (y : Sys Cert) (rest : List String) : Option (List Case) :=
   match splitAt? rest with
   | some (cpart, [sc, alpn, sops, tr]) =>
     match (mapM? parseRaw (splitBar cpart)).bind resolve, certOf sc, serverOps sops, parseTransport tr with
-    | some st, some serverCert, some sops, some (inner, twice) =>
-      let s : ServerPart := { serverCert, alpn, sops, inner, twice }
+    | some st, some serverCert, some sops', some (inner, mult) =>
+      let s : ServerPart := { serverCert, alpn, sops := sops', sopsTok := sops, inner, mult }
       -- the model: the whole case as one process
       let p := Proc.run y st.prog
       let cases? := mapM? (fun i =>
@@ -346,8 +379,9 @@ client-auth mode the *oracle* reads off the ops (it is not tonic code). -/
 def serverOf (c : Case) : Option (ServerKind Cert (List Cert)) :=
   let idOp : SOp := .identity { cert := some [c.s.serverCert], keyOk := true, accepted := true }
   if c.s.alpn = "h2" then
-    match (ServerTlsConfig.build (idOp :: c.s.sops)).tlsAcceptor with
-    | .ok s => some (.tonicTls s)
+    -- the whole `Server` builder chain: an earlier `tls_config`, layers, the case's `tls_config`
+    match ServerBuilder.run (serverSteps c.s.sopsTok idOp (idOp :: c.s.sops)) with
+    | .ok (some s) => some (.tonicTls s)
     | _ => none
   else if c.s.alpn = "plain" then some .plain
   else
@@ -389,14 +423,14 @@ def certsTok : Option (List Cert) → String
   | none => "none"
   | some ch => s!"{ch.length}:eq"
 
-def outcomeToks (twice : Bool) (o : Outcome (List Cert)) : String :=
+def outcomeToks (mult : Nat) (o : Outcome (List Cert)) : String :=
   let res := if o.ok then "ok" else "fail:" ++ (match o.why with | some w => whyTok w | none => "?")
   let peer := match o.peer with | none => "-" | some p => certsTok p
   let ext := match o.ext with
     | none => "-"
     | some none => "absent"
     | some (some e) => certsTok e
-  s!"res={res} cfg=ok h={if twice then 2 * o.handlers else o.handlers} peer={peer} ext={ext} plain={if o.plaintext then 1 else 0} dial=1"
+  s!"res={res} cfg=ok h={mult * o.handlers} peer={peer} ext={ext} plain={if o.plaintext then 1 else 0} dial=1"
 
 def modelOut (c : Case) : String :=
   -- the harness brings the server up first: a refused server configuration ends the case
@@ -407,7 +441,7 @@ def modelOut (c : Case) : String :=
     if c.c.cfgOnly then "cfg-only" else
     match endpointOf c with
     | .error e => s!"res=fail:config cfg=err:{cfgErrTok e} h=0 peer=- ext=- plain=0 dial=0"
-    | .ok ep => outcomeToks c.s.twice (scenario ep srv c.s.inner handshake)
+    | .ok ep => outcomeToks c.s.mult (scenario ep srv c.s.inner handshake)
 
 /-! ### spec verdict on the OBSERVED output (written against `Spec/`, not the model) -/
 
